@@ -364,39 +364,36 @@ def r12c(run):
 
 
 def r12d(run):
-    import itertools
-    f, fa, stages = c18.union_stages(run)
+    """the union's retry stages (stage table of logic_table.py): a fully strict first stage that runs exactly when the caller
+    has not already set both flags; stages only raise flags; the first accepting attempt in stage order wins"""
+    from . import logic_table as lt
+    f, table, stages = c18.union_stages(run)
     run.floor("R12d", "union retry stages", len(stages), 2)
     full = [st for st in stages if st[2] == set(FLAGS)]
-    run.check("R12d", f, "the union has a fully strict first stage", bool(full), construct="no strict union stage",
-              message="no union stage enters its child contexts with both no_data_loss and no_explicit_cast",
+    run.check("R12d", f, "the union has a fully strict first stage", bool(full) and all(
+        (not v) or (v[0] == full[0][0]) or all(k) for k, v in table.items()), construct="no strict union stage",
+              message="no union stage enters its child contexts with both no_data_loss and no_explicit_cast (first)",
               necessity="union resolution relies on trying the arms strictly first: a lenient arm that converts with loss "
                         "wins over an arm that fits exactly")
-    for n, var, fl, lowered, extra in full:
-        guards = c18.flag_guards(fa, n, FLAGS)
-        bad = []
-        for vals in itertools.product([False, True], repeat=2):
-            env = dict(zip(FLAGS, vals))
-            want = not all(env.values())
-            vs = [c18._flag_env_eval(b.test, env, res) for b, res in guards]
-            if any(v is None for v in vs):
-                raise AnalysisError("R12d: cannot evaluate the guard of the strict union stage")
-            entered = all(v == b.polarity for v, (b, res) in zip(vs, guards))
-            if entered != want:
-                bad.append(f"{env}: entered={entered}")
+    for sg, var, fl, lowered, extra, entered in full:
+        bad = [f"{dict(zip(FLAGS, k))}: entered={v}" for k, v in sorted(entered.items()) if v != (not all(k))]
         run.check("R12d", f, "the strict stage runs exactly when the caller has not already set both flags", not bad,
                   construct="strict union stage guard",
                   message=f"the strict stage `{var}` is entered wrongly for {bad}",
                   necessity="with exactly one flag set the strict attempt is skipped: Union[int, float] given "
                             "Decimal('1.5') under no_explicit_cast returns 1 instead of 1.5 - the result under the flag "
-                            "differs from the lenient result", node=n.ast)
-    for n, var, fl, lowered, extra in stages:
+                            "differs from the lenient result")
+    for sg, var, fl, lowered, extra, entered in stages:
         run.check("R12d", f, f"union stage `{var}` only raises conversion flags", not lowered and not extra and bool(fl),
-                  construct=f"stage {var} lowers or adds options",
+                  construct=f"stage [{'+'.join(sorted(fl))}] lowers or adds options",
                   message=f"the union stage options `{var}` set {lowered + extra} besides raising {sorted(fl)}",
                   necessity="merged into the child context this overrides the caller's flag: under "
-                            "Options(no_explicit_cast=True) '123' converts to 123 for Optional[int] but not for int",
-                  node=n.ast)
+                            "Options(no_explicit_cast=True) '123' converts to 123 for Optional[int] but not for int")
+    w = lt.behaviour(run).get("|:order")
+    run.check("R12d", f, "the first accepting attempt in stage order (strict, no-data-loss, common) gives the result", w is None,
+              construct="union stage order",
+              message=f"for [{w[0]}] the union returns the result of {w[1]}, expected {w[2]}" if w else "",
+              necessity="a lenient arm that converts with loss wins over an arm that fits exactly")
 
 
 def check(run):
